@@ -1039,6 +1039,7 @@ class Wtp:
         need_pre_expand=excluded.need_pre_expand, model=excluded.model""",
             (title, namespace_id, body, redirect_to, need_pre_expand, model),
         )
+        self.get_page.cache_clear()  # cached lookups may now be stale
 
     def analyze_templates(
         self,
@@ -1116,11 +1117,13 @@ class Wtp:
         """
         self.db_conn.execute(query_str)
         self.db_conn.commit()
+        self.get_page.cache_clear()  # cached lookups may now be stale
 
     def set_template_pre_expand(self, name: str) -> None:
         self.db_conn.execute(
             "UPDATE pages SET need_pre_expand = 1 WHERE title = ?", (name,)
         )
+        self.get_page.cache_clear()  # cached lookups may now be stale
 
     def start_page(self, title: str) -> None:
         """Starts a new page for expanding Wikitext.  This saves the title
